@@ -81,6 +81,7 @@ def one_case(ctx: Ctx, stream: str, i: int) -> None:
     enc = Encoder()
     esx = enc.op(op)
     enc.freeze()
+    ctx.in_domain(stream, i, esx, cfg)
 
     # ---- oracle: dense matrix -------------------------------------------------------------------------
     mats = [gen.dense(b) for b in leaves]
